@@ -230,7 +230,7 @@ impl<R: Round> Context<R> {
         }
 
         // use one extra digit to prevent cancellation in rounding
-        let rnd_precision = self.precision + is_sub as usize;
+        let rnd_precision = self.precision.saturating_add(is_sub as usize);
 
         // align to precision again
         let digits = digit_len::<B>(&significand);
@@ -298,7 +298,7 @@ impl<R: Round> Context<R> {
 
         // use one extra digit when subtracting to prevent cancellation in rounding
         let is_sub = lhs.significand.sign() != rhs_sign * rhs.significand.sign();
-        let rnd_precision = self.precision + is_sub as usize;
+        let rnd_precision = self.precision.saturating_add(is_sub as usize);
 
         let ediff = (lhs.exponent - rhs.exponent) as usize;
         let ldigits = lhs.digits();
@@ -308,7 +308,7 @@ impl<R: Round> Context<R> {
         let low: (IBig, usize); // (value of low part, precision of the low part)
         let (significand, exponent) = if self.is_limited()
             && rdigits_est + 1 < ediff
-            && rdigits_est + 1 + rnd_precision < ldigits + ediff
+            && (rdigits_est + 1).saturating_add(rnd_precision) < ldigits + ediff
         {
             // if rhs is much smaller than lhs, direct round on the rhs
             /*
@@ -400,7 +400,7 @@ impl<R: Round> Context<R> {
         // the following implementation should be exactly the same as `repr_add_large_small`
         // other than lhs and rhs are swapped. See `repr_add_large_small` for full documentation
         let is_sub = lhs.significand.sign() != rhs_sign * rhs.significand.sign();
-        let rnd_precision = self.precision + is_sub as usize;
+        let rnd_precision = self.precision.saturating_add(is_sub as usize);
 
         let ediff = (rhs.exponent - lhs.exponent) as usize;
         let rdigits = rhs.digits();
@@ -410,7 +410,7 @@ impl<R: Round> Context<R> {
         let low: (IBig, usize);
         let (significand, exponent) = if self.is_limited()
             && ldigits_est + 1 < ediff
-            && ldigits_est + 1 + rnd_precision < rdigits + ediff
+            && (ldigits_est + 1).saturating_add(rnd_precision) < rdigits + ediff
         {
             // if lhs is much smaller than rhs, direct round on the lhs
             let low_prec = if rdigits >= rnd_precision {
